@@ -24,6 +24,8 @@
     8  non-vacuity examples
     9  C11: `fence_verbatim`, `indented_verbatim`
    10  C14: `list_shape`
+   11  fuel monotonicity (`tokenize_mono`)
+   12  `tokenize_exit`
 -/
 import MdIt.Model.Block
 import MdIt.Props.C10
@@ -2522,5 +2524,247 @@ example : (parseBlocks exCfg ['-', ' ', 'a', '\n', '-', ' ', 'b', '\n', '\n', '1
       (fun p => p.1.children.map fun n => (n.kind, n.children.map (·.kind)))
     = some [(.bulletList '-', [.listItem, .listItem]), (.orderedList 1 '.', [.listItem])] := by
   decide +kernel
+
+/-! ## 11. more fuel never changes a result -/
+
+/-- `f'` answers whatever `f` answers -/
+def Ext {α β : Type} (f f' : α → Except Panic β) : Prop := ∀ a b, f a = .ok b → f' a = .ok b
+
+syntax "replay_mono" : tactic
+macro_rules
+| `(tactic| replay_mono) => `(tactic|
+    simp only [*, ok_bind, ↓reduceIte, ne_eq, not_true_eq_false, not_false_eq_true,
+      Bool.false_eq_true, pure, Except.pure, decide_true, decide_false, false_and, and_false, and_true,
+      true_and, Classical.not_not])
+
+theorem lazyScan_mono {test test' : Test} (ht : Ext test test') (setext : Bool) :
+    ∀ (fuel fuel' : Nat) (s : BState) (n : Nat) (r : Nat × Nat × BState), fuel ≤ fuel' →
+      lazyScan test setext fuel s n = .ok r → lazyScan test' setext fuel' s n = .ok r := by
+  intro fuel
+  induction fuel with
+  | zero => intro fuel' s n r _ h; simp [lazyScan] at h
+  | succ f ih =>
+    intro fuel' s n r hf h
+    obtain ⟨f', rfl⟩ : ∃ f', fuel' = f' + 1 := ⟨fuel' - 1, by omega⟩
+    simp only [lazyScan] at h ⊢
+    crack h
+    all_goals (try (have ht' := ht _ _ ‹test _ = _›))
+    all_goals (try (have hrec := ih f' _ _ _ (by omega) h))
+    all_goals (try subst_vars)
+    all_goals replay_mono
+
+theorem bqScan_mono {test test' : Test} (ht : Ext test test') :
+    ∀ (fuel fuel' : Nat) (s : BState) (m : Nat) (old : List LineOffset) (le : Bool)
+      (r : Nat × List LineOffset × BState), fuel ≤ fuel' →
+      bqScan test fuel s m old le = .ok r → bqScan test' fuel' s m old le = .ok r := by
+  intro fuel
+  induction fuel with
+  | zero => intro fuel' s m old le r _ h; simp [bqScan] at h
+  | succ f ih =>
+    intro fuel' s m old le r hf h
+    obtain ⟨f', rfl⟩ : ∃ f', fuel' = f' + 1 := ⟨fuel' - 1, by omega⟩
+    simp only [bqScan] at h ⊢
+    crack h
+    all_goals (try (have hle : le = false := by simpa using ‹¬le = true›))
+    all_goals (try subst hle)
+    all_goals (try (have ht' := ht _ _ ‹test _ = _›))
+    all_goals (try (have hrec := ih f' _ _ _ _ _ (by omega) h))
+    all_goals (try subst_vars)
+    all_goals replay_mono
+
+theorem paragraph_mono {test test' : Test} (ht : Ext test test') {fuel fuel' : Nat} (hf : fuel ≤ fuel')
+    {s : BState} {b : Bool} {r : Bool × BState} (h : paragraphRule test fuel s b = .ok r) :
+    paragraphRule test' fuel' s b = .ok r := by
+  unfold paragraphRule at h ⊢
+  crack h
+  all_goals (try (have hscan := lazyScan_mono ht false _ _ _ _ _ hf ‹lazyScan _ _ _ _ _ = _›))
+  all_goals (try subst_vars)
+  all_goals replay_mono
+
+theorem lheading_mono {test test' : Test} (ht : Ext test test') {fuel fuel' : Nat} (hf : fuel ≤ fuel')
+    {s : BState} {b : Bool} {r : Bool × BState} (h : lheadingRule test fuel s b = .ok r) :
+    lheadingRule test' fuel' s b = .ok r := by
+  unfold lheadingRule at h ⊢
+  crack h
+  all_goals (try (have hscan := lazyScan_mono ht true _ _ _ _ _ hf ‹lazyScan _ _ _ _ _ = _›))
+  all_goals (try subst_vars)
+  all_goals replay_mono
+
+theorem reference_mono {cfg : Cfg} {test test' : Test} (ht : Ext test test') {fuel fuel' : Nat}
+    (hf : fuel ≤ fuel') {s : BState} {b : Bool} {r : Bool × BState}
+    (h : referenceRule cfg test fuel s b = .ok r) : referenceRule cfg test' fuel' s b = .ok r := by
+  unfold referenceRule at h ⊢
+  crack h
+  all_goals (try (have hscan := lazyScan_mono ht false _ _ _ _ _ hf ‹lazyScan _ _ _ _ _ = _›))
+  all_goals (try subst_vars)
+  all_goals replay_mono
+
+theorem blockquote_mono {tok tok' : Tok} {test test' : Test} (hk : Ext tok tok') (ht : Ext test test')
+    {fuel fuel' : Nat} (hf : fuel ≤ fuel') {s : BState} {b : Bool} {r : Bool × BState}
+    (h : blockquoteRule tok test fuel s b = .ok r) : blockquoteRule tok' test' fuel' s b = .ok r := by
+  unfold blockquoteRule at h ⊢
+  crack h
+  all_goals (try (have hscan := bqScan_mono ht _ _ _ _ _ _ _ hf ‹bqScan _ _ _ _ _ _ = _›))
+  all_goals (try (have htok := hk _ _ ‹tok _ = _›))
+  all_goals (try subst_vars)
+  all_goals replay_mono
+
+theorem listItemBody_mono {tok tok' : Tok} (hk : Ext tok tok') {s t : BState} {m : Nat} {re : Bool}
+    (h : listItemBody tok s m re = .ok t) : listItemBody tok' s m re = .ok t := by
+  unfold listItemBody at h ⊢
+  crack h
+  all_goals (try (have htok := hk _ _ ‹tok _ = _›))
+  all_goals (try subst_vars)
+  all_goals replay_mono
+
+theorem listItem_mono {tok tok' : Tok} (hk : Ext tok tok') {s : BState} {m pos : Nat} {pee tight : Bool}
+    {r : BState × Bool × Bool} (h : listItem tok s m pos pee tight = .ok r) :
+    listItem tok' s m pos pee tight = .ok r := by
+  unfold listItem at h ⊢
+  crack h
+  have hbody := listItemBody_mono hk ‹listItemBody _ _ _ _ = _›
+  subst_vars
+  replay_mono
+
+theorem listContinue_mono {test test' : Test} (ht : Ext test test') {ordered : Bool} {mc : Char} {s : BState}
+    {n : Nat} {r : Option Nat × BState} (h : listContinue test ordered mc s n = .ok r) :
+    listContinue test' ordered mc s n = .ok r := by
+  unfold listContinue at h ⊢
+  crack h
+  all_goals (try (have ht' := ht _ _ ‹test _ = _›))
+  all_goals (try subst_vars)
+  all_goals replay_mono
+
+theorem listLoop_mono {tok tok' : Tok} {test test' : Test} (hk : Ext tok tok') (ht : Ext test test')
+    {ordered : Bool} {mc : Char} :
+    ∀ (fuel fuel' : Nat) (s : BState) (m pos : Nat) (pee tight : Bool) (r : Nat × Bool × BState), fuel ≤ fuel' →
+      listLoop tok test ordered mc fuel s m pos pee tight = .ok r →
+      listLoop tok' test' ordered mc fuel' s m pos pee tight = .ok r := by
+  intro fuel
+  induction fuel with
+  | zero => intro fuel' s m pos pee tight r _ h; simp [listLoop] at h
+  | succ f ih =>
+    intro fuel' s m pos pee tight r hf h
+    obtain ⟨f', rfl⟩ : ∃ f', fuel' = f' + 1 := ⟨fuel' - 1, by omega⟩
+    simp only [listLoop] at h ⊢
+    crack h
+    all_goals (try (have hitem := listItem_mono hk ‹listItem _ _ _ _ _ _ = _›))
+    all_goals (try (have hcont := listContinue_mono ht ‹listContinue _ _ _ _ _ = _›))
+    all_goals (try (have hrec := ih f' _ _ _ _ _ _ (by omega) h))
+    all_goals (try subst_vars)
+    all_goals replay_mono
+
+theorem list_mono {tok tok' : Tok} {test test' : Test} (hk : Ext tok tok') (ht : Ext test test')
+    {fuel fuel' : Nat} (hf : fuel ≤ fuel') {s : BState} {b : Bool} {r : Bool × BState}
+    (h : listRule tok test fuel s b = .ok r) : listRule tok' test' fuel' s b = .ok r := by
+  unfold listRule at h ⊢
+  cases b <;> crack h
+  all_goals (try (have hloop := listLoop_mono hk ht _ _ _ _ _ _ _ _ hf ‹listLoop _ _ _ _ _ _ _ _ _ _ = _›))
+  all_goals (try subst_vars)
+  all_goals (try simp only [eq_self, true_and, Bool.false_eq_true, false_and, decide_false, pure, Except.pure] at *)
+  all_goals replay_mono
+
+theorem runRule_mono {cfg : Cfg} {tok tok' : Tok} {test test' : Test} (hk : Ext tok tok') (ht : Ext test test')
+    {fuel fuel' : Nat} (hf : fuel ≤ fuel') (r : RuleId) {s : BState} {b : Bool} {x : Bool × BState}
+    (h : runRule cfg tok test fuel r s b = .ok x) : runRule cfg tok' test' fuel' r s b = .ok x := by
+  cases r <;> simp only [runRule] at h ⊢
+  · exact h
+  · exact h
+  · exact blockquote_mono hk ht hf h
+  · exact h
+  · exact list_mono hk ht hf h
+  · exact reference_mono ht hf h
+  · exact h
+  · exact lheading_mono ht hf h
+  · exact paragraph_mono ht hf h
+
+theorem runChain_mono {run run' : RuleId → BState → Bool → Res}
+    (hr : ∀ r s b x, run r s b = .ok x → run' r s b = .ok x) :
+    ∀ (chain : List RuleId) (s : BState) (b : Bool) (x : Bool × BState),
+      runChain run chain s b = .ok x → runChain run' chain s b = .ok x := by
+  intro chain
+  induction chain with
+  | nil => intro s b x h; exact h
+  | cons r rs ih =>
+    intro s b x h
+    simp only [runChain] at h ⊢
+    split at h
+    · cases h
+    · rename_i s1 h1
+      rw [hr _ _ _ _ h1]; exact h
+    · rename_i s1 h1
+      rw [hr _ _ _ _ h1]; exact ih _ _ _ h
+
+theorem tokLoop_mono {cfg : Cfg} {run run' : RuleId → BState → Bool → Res}
+    (hr : ∀ r s b x, run r s b = .ok x → run' r s b = .ok x) :
+    ∀ (fuel fuel' : Nat) (he : Bool) (s t : BState), fuel ≤ fuel' →
+      tokLoop cfg run fuel he s = .ok t → tokLoop cfg run' fuel' he s = .ok t := by
+  intro fuel
+  induction fuel with
+  | zero => intro fuel' he s t _ h; simp [tokLoop] at h
+  | succ f ih =>
+    intro fuel' he s t hf h
+    obtain ⟨f', rfl⟩ : ∃ f', fuel' = f' + 1 := ⟨fuel' - 1, by omega⟩
+    simp only [tokLoop] at h ⊢
+    crack h
+    all_goals (try (have hchain := runChain_mono hr _ _ _ _ ‹runChain _ _ _ _ = _›))
+    all_goals (try (have hrec := ih f' _ _ _ (by omega) h))
+    all_goals (try subst_vars)
+    all_goals replay_mono
+
+/-- **fuel monotonicity**: a result obtained with fuel `f` is obtained with every larger fuel -/
+theorem engine_mono (cfg : Cfg) : ∀ (f f' : Nat), f ≤ f' →
+    Ext (tokenize cfg f) (tokenize cfg f') ∧ Ext (testRules cfg f) (testRules cfg f') := by
+  intro f
+  induction f with
+  | zero =>
+    intro f' _
+    exact ⟨fun s t h => by simp [tokenize, engine] at h, fun s t h => by simp [testRules, engine] at h⟩
+  | succ f ih =>
+    intro f' hf
+    obtain ⟨g, rfl⟩ : ∃ g, f' = g + 1 := ⟨f' - 1, by omega⟩
+    obtain ⟨hk, ht⟩ := ih g (by omega)
+    have hrun : ∀ r s b x, runRule cfg (tokenize cfg f) (testRules cfg f) (f + 1) r s b = .ok x →
+        runRule cfg (tokenize cfg g) (testRules cfg g) (g + 1) r s b = .ok x :=
+      fun r s b x h => runRule_mono hk ht (by omega) r h
+    constructor
+    · intro s t h
+      simp only [tokenize, engine] at h ⊢
+      exact tokLoop_mono hrun _ _ _ _ _ (by omega) h
+    · intro s x h
+      simp only [testRules, engine] at h ⊢
+      exact runChain_mono hrun _ _ _ _ h
+
+theorem tokenize_mono {cfg : Cfg} {f f' : Nat} (hf : f ≤ f') {s t : BState} (h : tokenize cfg f s = .ok t) :
+    tokenize cfg f' s = .ok t := (engine_mono cfg f f' hf).1 s t h
+
+/-! ## 12. where the tokenizer stops -/
+
+/-- the tokenizer loop ends at `line_max`, or in front of a line with a negative indent (a line that
+    belongs to an outer block) -/
+theorem tokLoop_exit {cfg : Cfg} {run : RuleId → BState → Bool → Res} :
+    ∀ (fuel : Nat) (he : Bool) (s t : BState), tokLoop cfg run fuel he s = .ok t →
+      t.lineMax ≤ t.line ∨ ∃ i, t.lineIndent t.line = .ok i ∧ i < 0 := by
+  intro fuel
+  induction fuel with
+  | zero => intro he s t h; simp [tokLoop] at h
+  | succ f ih =>
+    intro he s t h
+    simp only [tokLoop] at h
+    crack h
+    · subst_vars; left; omega
+    · subst_vars; left; simp only; omega
+    · subst_vars; right; rename_i ind hind hneg; exact ⟨ind, hind, hneg⟩
+    · subst_vars; left; simp
+    · exact ih _ _ _ h
+    · exact ih _ _ _ h
+
+theorem tokenize_exit {cfg : Cfg} {fuel : Nat} {s t : BState} (h : tokenize cfg fuel s = .ok t) :
+    t.lineMax ≤ t.line ∨ ∃ i, t.lineIndent t.line = .ok i ∧ i < 0 := by
+  cases fuel with
+  | zero => simp [tokenize, engine] at h
+  | succ f =>
+    simp only [tokenize, engine] at h
+    exact tokLoop_exit _ _ _ _ h
 
 end MdIt.Block
